@@ -3,7 +3,7 @@
 stmt_trees(source, lang, names) -> {function name: tree | None}
   `source` contains functions gK whose body is  `int x; int *y; <one statement> return 0;`; the third statement of the
   body is converted into the tree record format of spec/ExprGrammar.tla (Leaf/Bin/Pre/Post/Cond/Call/Sub/Cast/SzE/SzT/
-  If/Ret).  Only a change of notation: ParenExpr / ImplicitCastExpr and similar wrappers are transparent, nothing is
+  If/Ret/Init).  Only a change of notation: ParenExpr / ImplicitCastExpr and similar wrappers are transparent, nothing is
   compared here.  None = clang reported an error for that function or a node kind outside the notation occurred.
 """
 import json
@@ -62,6 +62,10 @@ def conv(n):
         return {"k": "if", "x": conv(_inner(n)[0])}
     if k == "ReturnStmt":
         return {"k": "ret", "x": conv(_inner(n)[0])}
+    if k == "DeclStmt":
+        (v,) = _inner(n)
+        if v.get("kind") == "VarDecl" and v.get("init") == "c":
+            return {"k": "init", "x": conv(_inner(v)[0])}
     raise _Unsupported(k)
 
 
